@@ -1,5 +1,6 @@
 From Coq Require Extraction ExtrOcamlBasic.
 From Common Require Import Words.
-From ServerLoop Require Import ServerLoopModel.
+From ServerLoop Require Import ServerLoopSpec ServerLoopModel.
 Extraction Language OCaml.
-Extraction "model.ml" anchor init step steps.
+Extraction "model.ml" anchor init step steps map_events
+  tmon0 rmon0 cmon0 imon0 tmon_step rmon_step cmon_step imon_step accepts verdict.
